@@ -151,6 +151,8 @@ class QRun:
         un = getattr(self.q, "_unfinished_tasks", None)
         if un is not None and un != self.puts - self.exits:
             self.fail("mark/unfinished-count-vs-puts-minus-exits", f"queue counts {un}, harness {self.puts}-{self.exits}")
+        if not any(not p.done() for p in self.putters) and self.puts != self.entries + self.q.qsize():
+            self.fail("item/lost-or-duplicated", f"puts {self.puts}, taken by blocks {self.entries}, still queued {self.q.qsize()}")
         waiting = [c for c in self.consumers if c["state"] == "waiting" and not c["task"].done()]
         if waiting and self.q.qsize() > 0:
             self.fail("item/consumer-waits-although-queue-nonempty", f"{len(waiting)} waiting, qsize {self.q.qsize()}")
